@@ -707,9 +707,22 @@ func (r Stack) Replace(x any, idx int) (ok bool) {
 
 func (r *stack) replace(x any, i int) (ok bool) {
 	if r != nil {
-		if ok = 0 <= i && i < r.ulen(); ok {
-			(*r)[i+1] = x
-		}
+		r.lock()
+		defer r.unlock()
+
+		ok = r.replaceAt(x, i)
+	}
+
+	return
+}
+
+/*
+replaceAt is the lock-free core of replace, for callers
+that already hold the receiver's lock (e.g.: reveal).
+*/
+func (r *stack) replaceAt(x any, i int) (ok bool) {
+	if ok = 0 <= i && i < r.ulen(); ok {
+		(*r)[i+1] = x
 	}
 
 	return
@@ -2121,7 +2134,7 @@ func (r *stack) revealDescend(inner Stack, idx int) (err error) {
 		// already present at index idx
 		// within the receiver instance.
 		if updated != nil {
-			r.replace(updated, idx)
+			r.replaceAt(updated, idx) // r is locked by reveal
 		}
 
 		// Begin second pass-over before
